@@ -228,7 +228,8 @@ def path_gauge(eng, acc, task):
         h.A[i] = np.einsum(v_l, (2, 4), h.A[i], (0, 1, 4, 3), (0, 1, 2, 3))
         h.A[i + 1] = np.einsum(v_r, (3, 4), h.A[i + 1], (0, 1, 2, 4), (0, 1, 2, 3))
         M = h.as_matrix(); Mr = h_r.as_matrix()
-    except (AssertionError, ValueError, IndexError, KeyError, TypeError, ZeroDivisionError) as e:
+    except Exception as e:
+        reraise_internal(e)
         import traceback
         tb = traceback.extract_tb(e.__traceback__)[-1]
         candidate(eng, acc, task, 'molecular_gauge', f'gauge:raises:{type(e).__name__}@{tb.lineno}', repr(e), inputs)
@@ -274,7 +275,8 @@ def path(eng, acc, task):
     fails = []
     try:
         mpo = f(tk, vi, optimize=opt)
-    except (AssertionError, ValueError, IndexError, KeyError, TypeError, ZeroDivisionError, NotImplementedError) as e:
+    except Exception as e:
+        reraise_internal(e)
         # identically-zero operator on the optimised path is outside the property
         # (same convention as C05/C06: the chain compiler needs at least one non-zero term)
         if opt and d ** L <= 256:
